@@ -631,6 +631,100 @@ def check_dead_guard(rep, prog):
         raise facts.AnalysisBroken('R-dead-guard examined only %d conditions' % n)
 
 
+
+# ---- R-cache: a cached output flow definition is invalidated by whoever changes what it is built from ------------
+CACHE_FLAG = 'flow_def_uptodate'
+
+
+def check_cache(rep, prog):
+    rep.rule('R-cache', 'pipes that cache their output flow definition behind a flag (flow_def_uptodate: videocont, grid): the fields read where the definition is '
+             'rebuilt (between the test of the flag and its being set) are its sources; any other function of the unit that stores into a source - allocation and '
+             'teardown apart - stores the flag (invalidates) or passes a test on a source field (is this the input in use?) on every path from that store to its '
+             'return: the invalidation happens where the new value takes effect, so the definition announced is never older than the data')
+    n = 0
+    for uname, u in sorted(prog.units.items()):
+        flagged = [fn for fn in u.funcs.values() if fn.blocks and fn.inmain and not fn.macro and any(
+            is_assign(x) and isinstance(strip(x['lhs']), dict) and strip(x['lhs']).get('f') == CACHE_FLAG and const_of(strip_all_casts(fn.resolve(x['rhs']))) == 1
+            for _, _, x in fn.nodes())]
+        if not flagged:
+            continue
+        sources = set()
+        for fn in flagged:
+            dom = fn.dominators()
+            for bid, st, x in fn.nodes():
+                if is_assign(x) and isinstance(strip(x['lhs']), dict) and strip(x['lhs']).get('f') == CACHE_FLAG and const_of(strip_all_casts(fn.resolve(x['rhs']))) == 1:
+                    conds = [d for d in dom.get(bid, ()) if fn.cond(d) and d != bid and any(
+                        isinstance(y, dict) and y.get('k') == 'mem' and y.get('f') == CACHE_FLAG for y in walk(fn.resolve(fn.cond(d)[0])))]
+                    if not conds:
+                        raise facts.AnalysisBroken('%s: the test of %s that guards the rebuild was not found' % (fn.name, CACHE_FLAG))
+                    # blocks between that test and the store of the flag (they can still reach it)
+                    reach_store, todo = {bid}, [bid]
+                    preds = {}
+                    for b_, ss_ in fn.succ.items():
+                        for x_ in ss_:
+                            if x_ is not None:
+                                preds.setdefault(x_, []).append(b_)
+                    while todo:
+                        for p_ in preds.get(todo.pop(), []):
+                            if p_ not in reach_store:
+                                reach_store.add(p_)
+                                todo.append(p_)
+                    region = [b for b in fn.blocks if b in reach_store and any(c in dom.get(b, ()) for c in conds)]
+                    for b in region:
+                        for s_ in fn.stmts(b):
+                            for y in walk(s_):
+                                if y.get('k') == 'mem' and y.get('rec') and y['rec'] != 'upipe' and y.get('f') != CACHE_FLAG:
+                                    sources.add((y['rec'], y['f']))
+        if not sources:
+            raise facts.AnalysisBroken('%s: no source field found for the cached flow definition' % uname)
+        for fn in sorted(u.funcs.values(), key=lambda f: f.name):
+            if not fn.blocks or not fn.inmain or fn.macro or fn in flagged:
+                continue
+            if any(x.get('k') == 'call' and (x.get('fn') or '') in ('upipe_throw_ready', 'upipe_throw_dead') or
+                   (x.get('k') == 'call' and re.search(r'_(init|clean)_urefcount$|_alloc_(void|flow)$', x.get('fn') or '')) for _, _, x in fn.nodes()):
+                continue          # allocation / teardown
+            ev = pr.Events(fn)
+
+            def src_store(n_):
+                if is_assign(n_):
+                    l = strip(n_['lhs'])
+                    return isinstance(l, dict) and l.get('k') == 'mem' and (l.get('rec'), l.get('f')) in sources
+                return False
+
+            def inval(n_):
+                if is_assign(n_):
+                    l = strip(n_['lhs'])
+                    return isinstance(l, dict) and l.get('k') == 'mem' and l.get('f') == CACHE_FLAG
+                return False
+            stores = ev.find(src_store)
+            if not stores:
+                continue
+            guards = {b for b in fn.blocks if fn.cond(b) and any(
+                isinstance(y, dict) and y.get('k') == 'mem' and (y.get('rec'), y.get('f')) in sources for y in walk(fn.resolve(fn.cond(b)[0])))}
+            succ = dict(fn.succ)
+            for g in guards:
+                succ[g] = []
+
+            class _V:
+                def __init__(self, f, sc):
+                    self._f, self.succ = f, sc
+
+                def __getattr__(self, a):
+                    return getattr(self._f, a)
+            for sp in stores:
+                n += 1
+                ev.fn = _V(fn, succ)
+                _, ex = ev.reach((sp[0], sp[1]), lambda n_: False, inval)
+                ev.fn = fn
+                l = strip(sp[2]['lhs'])
+                rep.add('R-cache', '%s:%s.%s@%s' % (fn.name, l.get('rec'), l.get('f'), sp[2].get('l')), VIOLATED if ex else HOLDS, '%s:%s' % (fn.file, sp[2].get('l')),
+                        **({'what': '%s stores %s.%s, which the cached output flow definition is built from, and can return without invalidating the cache (%s) or testing '
+                                    'whether this input is the one in use: the next picture goes out under the definition built from the old value' % (
+                                        fn.name, l.get('rec'), l.get('f'), CACHE_FLAG)} if ex else {}))
+    if n < 3:
+        raise facts.AnalysisBroken('R-cache found only %d stores to cache sources' % n)
+
+
 def run(tier='quick', repo=None):
     repo = repo or facts.REPO
     rep = Report(PROP, tier)
@@ -694,6 +788,7 @@ def run(tier='quick', repo=None):
     if nband < 10:
         raise facts.AnalysisBroken('R-gate-inband found only %d callers of input handlers' % nband)
     check_dead_guard(rep, prog)
+    check_cache(rep, prog)
     if ninner < 3:
         raise facts.AnalysisBroken('R-gate-inner found only %d negotiations with inner pipes' % ninner)
     rep.assumptions = [
